@@ -8,7 +8,7 @@ from .lib import coq_mismatches, strip_comments
 LEVEL = "proof"
 META = {
     "category": "proof",
-    "text": "Coq theorems over a model of internal/compile/serial.go: Go's varint/uvarint codec defined and proved to round-trip for every int64/uint64 (with the truncated and overflow results), a schema-directed codec with the two sections of the wire format (program varints + string section referenced by lengths in lock step) proved to round-trip for every schema and every well-typed value with nothing left over and byte-identical re-encoding, the schema of Program/Funcode/Binding/constants written once in encoder order and once in decoder order and proved equal, hence decode(encode p) = p for every program within the ranges of the Go field types. The model is tied to /repo on every run: the real Program.Write bytes of compiled and synthetic programs must equal the model's encoding of the dump of every field, and the model's decoder must recover the dump from the real bytes; the direct property (same prints, globals, errors, backtraces, docstrings, parameter metadata, loads; same bytes on re-Write) is run on generated programs, the bytes being handed to the decoder through bytes.Buffer / bytes.Reader / bufio / os.File / a raw slice and destroyed (buffer reused for another program, slice overwritten, file rewritten) before the decoded program is executed and written again; truncated and corrupted files are decoded in sacrificial processes.",
+    "text": "Coq theorems over a model of internal/compile/serial.go: Go's varint/uvarint codec defined and proved to round-trip for every int64/uint64 (with the truncated and overflow results), a schema-directed codec with the two sections of the wire format (program varints + string section referenced by lengths in lock step) proved to round-trip for every schema and every well-typed value with nothing left over and byte-identical re-encoding, the schema of Program/Funcode/Binding/constants written once in encoder order and once in decoder order and proved equal, hence decode(encode p) = p for every program within the ranges of the Go field types. The model is tied to /repo on every run: the real Program.Write bytes of compiled and synthetic programs must equal the model's encoding of the dump of every field, and the model's decoder must recover the dump from the real bytes; the direct property (same prints, globals, errors, backtraces, docstrings, parameter metadata, loads; same bytes on re-Write) is run on generated programs, the bytes being handed to the decoder through bytes.Buffer / bytes.Reader / bufio / os.File / a raw slice and destroyed (buffer reused for another program, slice overwritten, file rewritten) before the decoded program is executed and written again; programs are also written re-entrantly (a writer that saves another program inside Write), concurrently from several goroutines to slow writers, into pipes, files and bufio writers, each stream having to equal the program's lone encoding; truncated and corrupted files are decoded in sacrificial processes.",
     "note": "Trusted: Coq kernel + vm_compute; the Go harness and its program generator; math.Float64bits/Float64frombits as an oracle (a float constant is modelled by its bits); big.Int.Text(10)/SetString are modelled by Codec.print_dec/parse_dec (round trip proved, tied to the real text by the byte-level correspondence); the field lists of Program/Funcode are compared with compile.go textually; execution equivalence itself is observed on generated programs, the theorem is equality of every field the interpreter reads.",
     "technique": "Coq proof over executable model + differential correspondence (vm_compute) + decoder-side oracle + direct round-trip runs + corrupted-input runs in child processes",
 }
@@ -230,6 +230,22 @@ def run(ctx):
     if invalid > len(rt) // 20:
         ctx.broken("generator:C17", "%d of %d generated programs do not compile" % (invalid, len(rt)))
 
+    # ---------------------------------------------------------------- (a') Write under every calling pattern
+    n_wr = 10 if quick else 300
+    wr = [] if "a" in skip else ctx.jsonl([hx, "-mode", "writers", "-seed", seed, "-n", str(n_wr)], timeout=800)
+    nstreams = 0
+    for c in wr:
+        for k, v in (c.get("scenarios") or {}).items():
+            dist["write:" + k] = dist.get("write:" + k, 0) + v
+            nstreams += v
+        for d in c.get("diffs") or []:
+            if d["key"].startswith("generator:"):
+                ctx.broken("generator:C17", d["what"])
+                continue
+            ctx.finding(d["key"], d["what"], {"mode": "writers", "id": c["id"], "seed": ctx.seed, "sizes": c.get("sizes"), "srcs": c.get("srcs"),
+                                              "how": "c17 -mode writers -seed %s -n %d (case id=%d)" % (seed, c["id"] + 1, c["id"])})
+    ctx.log("(a') %d groups of programs, %d written streams compared (re-entrant, concurrent, pipe, file, bufio writers)" % (len(wr), nstreams))
+
     # ---------------------------------------------------------------- (b) correspondence
     n_corr = 18 if quick else 1200
     corr = ctx.jsonl([hx, "-mode", "corr", "-seed", seed, "-n", str(n_corr)] + (["-small"] if quick else []), timeout=800)
@@ -334,7 +350,7 @@ Definition dec_ok (c : bytes * bool) : bool :=
 
     samples = [{"origin": c["origin"], "class": c.get("class"), "bytes": c["bytes"][:120]} for c in refs[:2] + refs[len(refs) // 2: len(refs) // 2 + 2]]
     cov = {
-        "evaluations": len(rt) + len(corr) + csum.get("cases", 0),
+        "evaluations": len(rt) + len(corr) + csum.get("cases", 0) + nstreams,
         "distinct_nontrivial": len(terms) + sum(1 for c in rt if not c.get("invalid")),
         "rule": "(a) seeded generated programs (constants of every kind, closures, all parameter shapes, loads, docstrings, lambdas, comprehensions, saturated position deltas, run-time failures below several frames, Recursion on/off): p vs CompiledProgram(Write(p)) on prints, globals, error, backtrace, call stack, per-function metadata, loads, filename, every dumped field, and byte-identical re-Write; "
                 "(b) small compiled programs + synthetic programs (one field at a boundary value at a time over pools for int32/uint16/int64/float bits/bigint/strings, plus random field values): distinct (dump, bytes) pairs evaluated in Coq against the encoder model (model_ok), the decoder model (spec_ok) and wt_program; "
